@@ -19,6 +19,11 @@ namespace Rl4co.Train.GenBridge
 open Rl4co.Spec.Train
 variable {K : Type} [Field K]
 
+theorem dual_add_comm (a b : Dual K) : a + b = b + a := by
+  cases a; cases b
+  show Dual.mk _ _ = Dual.mk _ _
+  congr 1 <;> exact add_comm _ _
+
 /-- the generated `calculate_loss` is the model's `calcLoss` (same failure cases, same three outputs) -/
 theorem gen_reinforce_eq (sc : ScaleOp K) (reward blVal ll : Ten (Dual K)) (blLoss : Dual K) :
     Numeric.reinforceLoss sc reward blVal ll blLoss
@@ -30,7 +35,7 @@ theorem gen_reinforce_eq (sc : ScaleOp K) (reward blVal ll : Ten (Dual K)) (blLo
     simp only [h1, Option.bind_eq_bind, Option.bind_some, Option.pure_def]
     cases h2 : Ten.bop (fun a l => a * l) (Ten.map sc.apply adv0) ll with
     | none => simp
-    | some prod => simp
+    | some prod => simp [dual_add_comm blLoss]   -- the translator emits `+` in canonical operand order
 
 /-- the generated `CriticBaseline.eval` is the model's `Critic.eval` -/
 theorem gen_critic_eq (out c : Ten (Dual K)) : Numeric.criticEval out c = Critic.eval out c := by
